@@ -50,6 +50,9 @@ Inductive case :=
    [iu] before [ur]; the client saw the informational responses [ic] before [cl] *)
 | CFwd1xx (o : route_opts) (q : request) (up : option upstream) (iu : list response) (ur : response)
           (ic : list response) (cl : response)
+(* Upgrade: websocket over real sockets: what the upstream connection was sent first
+   (method, request target, Host); None = no upstream connection *)
+| CWs (o : route_opts) (q : request) (up : option (str * str * str))
 (* no route: configured status, page, whether any upstream was contacted, client's response *)
 | CNoRoute (status : Z) (html : str) (contacted : bool) (cl : response).
 
@@ -81,7 +84,7 @@ Definition check_fwd (wire : bool) (o : route_opts) (q : request) (up : option u
           let sameB := upstream_eqb (proj_up (no_target u)) (proj_up (no_target mu))
                        && response_eqb (proj_resp drop cl) (proj_resp drop (respond ur)) && same_x in
           let specB := spec_forward_rest o q u && spec_response drop ur cl && spec_x in
-          let regionB := if wire && region_gzip_added q then Some 3 else None in
+          let regionB : option N := None in
           let vB := verdict sameB specB regionB true in
           let bad v := (2 <=? v) && (v <=? 4) in
           if bad vA then vA else if bad vB then vB
@@ -126,6 +129,19 @@ Definition check_case (c : case) : N :=
       let spec_x := list_eqb (fun a b => (rs_status a =? rs_status b)%Z
                                          && header_eqb (rs_headers a) (rs_headers b)) (pr ic) (pr iu) in
       check_fwd true o q up ur cl same_x spec_x
+  | CWs o q up =>
+      match ws_forward o q, up with
+      | Ok (mm, mt, mh), Some (im, it, ih) =>
+          let regionA := if region_strip_encoding o (rq_target q) then Some 1
+                         else if region_invalid_byte o (rq_target q) then Some 2 else None in
+          let vA := verdict (beq it mt) (beq it (spec_target o (rq_target q))) regionA true in
+          let vB := verdict (beq im mm && beq ih mh)
+                            (beq im (rq_method q) && beq ih (spec_host o (rq_host q))) None true in
+          let bad v := (2 <=? v) && (v <=? 4) in
+          if bad vA then vA else if bad vB then vB else if 100 <=? vA then vA else v_agree
+      | Ok _, None => v_disagree_spec_fails
+      | _, _ => v_disagree
+      end
   | CNoRoute status html contacted cl =>
       let m := noroute_response status html in
       let same := negb contacted && response_eqb cl m in
